@@ -1,13 +1,61 @@
 package control
 
 import (
+	"fmt"
 	"math/rand/v2"
 
 	vk "github.com/daeuniverse/dae/verifkit"
 )
 
-// verifC04DnsPipelines: DNS request/response optimiser pipelines (filled in
-// once the DNS reference interpreter is available).
+// verifC04DnsPipelines: the DNS request and DNS response rule programs are
+// compiled by dns.New through their PRODUCTION optimiser pipelines
+// (component/dns/dns.go); the compiled matchers must decide every question /
+// answer like the reference interpreter on the rule lists as written. The
+// build/select helpers are the C07 monitor's (linked into this build).
 func verifC04DnsPipelines(m *vk.Monitor, r *rand.Rand) {
-	m.Count("dns_pipelines_pending", 1)
+	gen := &vk.DGen{R: r, Internal: true}
+	nprog := vk.Scale(500, 15000)
+	nq := vk.Scale(30, 50)
+	for i := 0; i < nprog && m.Violations() < 5; i++ {
+		p := gen.Gen()
+		b, err := verifC07Build(p)
+		if err != nil {
+			m.Violation("dns-build-error", "well-formed generated dns section rejected or crashed: "+err.Error(), map[string]any{"text": p.Text()})
+			continue
+		}
+		tags := []string{"asis"}
+		for _, u := range p.Upstreams {
+			tags = append(tags, u.Tag)
+		}
+		for _, q := range vk.DProbeQuestions(p, r, nq) {
+			m.Eval(1)
+			ref, ri := vk.RefDnsRequest(p, q)
+			if ri > 0 || len(p.Req) > 1 {
+				m.Distinct(fmt.Sprintf("dns-request|%s|%v", verifC07Shape(p.Req[:min(len(p.Req), 2)]), ri))
+				m.Count("dns_request_pipeline_decisions", 1)
+			}
+			if got := verifC07ReqSelect(b, p, q); got != ref {
+				m.Violation("meaning-changed/dns-request/"+verifC07Shape(p.Req), fmt.Sprintf("optimised DNS request program decides %q type %d as %s, rules as written say %s", q.Name, q.Qtype, got, ref),
+					map[string]any{"text": p.Text(), "qname": q.Name, "qtype": q.Qtype})
+				break
+			}
+			if q.Name == "" {
+				continue
+			}
+			rrs := vk.DProbeAnswer(p, q, r)
+			from := tags[r.IntN(len(tags))]
+			m.Eval(1)
+			rref, rri := vk.RefDnsResponse(p, q, vk.AnswerIPs(rrs), from)
+			if rri > 0 || len(p.Resp) > 1 {
+				m.Distinct(fmt.Sprintf("dns-response|%s|%v", verifC07Shape(p.Resp[:min(len(p.Resp), 2)]), rri))
+				m.Count("dns_response_pipeline_decisions", 1)
+			}
+			if got := verifC07RespSelect(b, p, q, rrs, from); got != rref {
+				m.Violation("meaning-changed/dns-response/"+verifC07Shape(p.Resp), fmt.Sprintf("optimised DNS response program decides answer to %q type %d from %s as %s, rules as written say %s", q.Name, q.Qtype, from, got, rref),
+					map[string]any{"text": p.Text(), "qname": q.Name, "qtype": q.Qtype, "from": from, "answer": fmt.Sprint(rrs)})
+				break
+			}
+		}
+	}
+	m.Require("dns_request_pipeline_decisions", "dns_response_pipeline_decisions")
 }
